@@ -12,6 +12,7 @@ EXPLANATION = ("C16 (narrow): websocket frame checks (minimal length encoding, m
                "independence and exact reassembly are value-level and not decided."
                " Also: control frames leave the reassembly flag alone (R9); a request refused on a kept connection has its body accounted for (R10).")
 EXPLANATION += ' Round 3: Content-Length is used only after a complete numeric conversion (R11); the chunk decoder enters CS_LEN only over the first-character test (R12).'
+EXPLANATION += " Round 6: masking happens in the frame's own storage (R17); a head is formatted into the fixed buffer only over the strict edge length < size (R18); the read buffer is found full only after compaction (R19); a line's parse status is not overwritten by the next line's (R20 = C20.R25)."
 
 WS = "supplemental/websocket/websocket.c"
 
